@@ -236,11 +236,9 @@ func execNameTestAnyElement(context *exprContext, expr *grammar.Grammar) error {
 	result := make(NodeSet, 0)
 
 	for _, i := range nodeSet {
-		if _, ok := i.Node().(node.NamedNode); ok {
+		if _, ok := namedPrincipal(context, i.Node()); ok {
 			result = append(result, i)
-		}
-
-		if _, ok := i.Node().(node.Namespace); ok {
+		} else if _, ok := i.Node().(node.Namespace); ok && context.principal == principalNamespace {
 			result = append(result, i)
 		}
 	}
@@ -284,7 +282,7 @@ func nameTestNamespaceAnyLocal(namespaceLookup string, context *exprContext, exp
 	result := make(NodeSet, 0)
 
 	for _, i := range nodeSet {
-		if node, ok := i.Node().(node.NamedNode); ok {
+		if node, ok := namedPrincipal(context, i.Node()); ok {
 			if node.Space() == namespaceValue {
 				result = append(result, i)
 			}
@@ -325,7 +323,7 @@ func nameTestLocalAnyNamespace(localValue string, context *exprContext, expr *gr
 	result := make(NodeSet, 0)
 
 	for _, i := range nodeSet {
-		if node, ok := i.Node().(node.NamedNode); ok {
+		if node, ok := namedPrincipal(context, i.Node()); ok {
 			if node.Local() == localValue {
 				result = append(result, i)
 			}
@@ -404,7 +402,7 @@ func nameTestQNameNamespaceWithLocal(namespaceLookup, local string, context *exp
 	result := make(NodeSet, 0)
 
 	for _, i := range nodeSet {
-		if node, ok := i.Node().(node.NamedNode); ok {
+		if node, ok := namedPrincipal(context, i.Node()); ok {
 			if node.Local() == local && node.Space() == namespaceValue {
 				result = append(result, i)
 			}
@@ -426,7 +424,7 @@ func execNameTestQNameLocalOnly(context *exprContext, expr *grammar.Grammar) err
 	queryName := expr.GetString()
 
 	for _, child := range nodeSet {
-		if elem, ok := child.Node().(node.NamedNode); ok {
+		if elem, ok := namedPrincipal(context, child.Node()); ok {
 			if elem.Space() == "" && elem.Local() == queryName {
 				nextResult = append(nextResult, child)
 			}
@@ -461,6 +459,7 @@ func execAxisName(context *exprContext, expr *grammar.Grammar) error {
 		result = selectChild(nodeSet)
 	case "attribute":
 		result = selectAttributes(nodeSet)
+		context.principal = principalAttribute
 	case "ancestor":
 		result = selectAncestor(nodeSet)
 		context.reverseAxis = true
@@ -477,6 +476,7 @@ func execAxisName(context *exprContext, expr *grammar.Grammar) error {
 		result = selectFollowingSibling(nodeSet)
 	case "namespace":
 		result = selectNamespace(nodeSet)
+		context.principal = principalNamespace
 	case "parent":
 		result = selectParent(nodeSet)
 	case "preceding":
@@ -513,7 +513,23 @@ func execAbbreviatedAxisSpecifier(context *exprContext, expr *grammar.Grammar) e
 	}
 
 	context.result = selectAttributes(nodeSet)
+	context.principal = principalAttribute
 	return nil
+}
+
+// namedPrincipal returns the node as a NamedNode if it is of the principal node
+// type of the current step's axis (an attribute on the attribute axis, an
+// element on the others).
+func namedPrincipal(context *exprContext, n node.Node) (node.NamedNode, bool) {
+	named, ok := n.(node.NamedNode)
+
+	if !ok {
+		return nil, false
+	}
+
+	_, isAttr := n.(node.Attribute)
+
+	return named, isAttr == (context.principal == principalAttribute)
 }
 
 func execAbbreviatedAbsoluteLocationPath(context *exprContext, expr *grammar.Grammar) error {
